@@ -504,6 +504,8 @@ static void in_child(const char *tag, void (*f)(const char *), const char *arg)
     const char *k = strstr(err, "runtime error:");
     if (!k)
         k = strstr(err, "AddressSanitizer:");
+    if (!k)
+        k = strstr(err, "ERROR:");
     char sum[200] = "";
     if (k) {
         size_t m = strcspn(k, "\n");
@@ -577,7 +579,7 @@ static int smoke(void)
     ABTD_atomic_relaxed_store_int(&g_smoke_cnt, 0);
     if (ABT_key_create(NULL, &g_smoke_key) != ABT_SUCCESS)
         return 1;
-    if (ABT_xstream_create(ABT_SCHED_NULL, &xs) != ABT_SUCCESS)
+    if (ABT_xstream_self(&xs) != ABT_SUCCESS)
         return 2;
     if (ABT_xstream_get_main_pools(xs, 1, &pool) != ABT_SUCCESS)
         return 3;
@@ -594,8 +596,6 @@ static int smoke(void)
     for (i = 0; i < 4; i++)
         if (ABT_task_free(&tk[i]) != ABT_SUCCESS)
             return 7;
-    if (ABT_xstream_join(xs) != ABT_SUCCESS || ABT_xstream_free(&xs) != ABT_SUCCESS)
-        return 8;
     ABT_key_free(&g_smoke_key);
     return ABTD_atomic_relaxed_load_int(&g_smoke_cnt) == 12 ? 0 : 9;
 }
@@ -695,7 +695,7 @@ static void env_run(const char *line)
     int sane = 16384 <= g->thread_stacksize && g->thread_stacksize <= 16777216 && 16384 <= g->sched_stacksize &&
                g->sched_stacksize <= 67108864 && g->sys_page_size == (size_t)pg && g->huge_page_size <= 1073741824 &&
                g->mem_page_size <= 67108864 && g->mem_sp_size <= 268435456 && g->key_table_size <= 65536 &&
-               g->mem_max_stacks <= 65536 && g->mem_max_descs <= 1048576 && g->sched_sleep_nsec <= 1000000 &&
+               g->mem_max_stacks <= 4096 && g->mem_max_descs <= 65536 && g->sched_sleep_nsec <= 1000000 &&
                g->sched_event_freq <= 4096 &&
                !g->print_config;
     printf(" sane=%d", sane);
